@@ -1,6 +1,6 @@
 (* C07 - Seal then unseal is lossless for every token, key algorithm and codec. *)
 From Coq Require Import String.
-Require Import Base Node Cbor CborProofs Did DidProofs Generated Policy PolicyIpld Envelope Token TokenProofs SealProofs SealedBytes CanonProofs SealBytesProofs Args ArgsProofs.
+Require Import Base Node Cbor CborProofs Did DidProofs Generated Policy PolicyIpld Envelope Token TokenProofs SealProofs SealedBytes CanonProofs SealBytesProofs Args ArgsProofs DagJson DagJsonProofs.
 Local Open Scope N_scope.
 
 (* go-ucan's own mapping: token -> payload node -> token is the identity on everything a constructor
@@ -93,3 +93,26 @@ Theorem C07_generic_and_typed_agree_inv : forall verify header_of n t,
   env_decode verify header_of itok inv_from_payload inv_tag n = Ok t -> generic_decode verify header_of n = Ok (AInv t).
 Proof. exact generic_typed_agree_inv. Qed.
 Print Assumptions C07_generic_and_typed_agree_inv.
+
+(* ---- DAG-JSON (the codec of go-ipld-prime as go-ucan uses it, DagJson.v; compared byte for byte with the
+   library in the cbor engine). The codec is lossless exactly on [jsafe] values: no floats (not modelled; F16),
+   strings and keys that are valid UTF-8, no map key "/", bytes below 256. What is written reads back as the same
+   value with its maps in key order - for every such value, any nesting, any size. ---- *)
+Theorem C07_dagjson_codec_roundtrip : forall x f, jsafe x -> (jdepth x <= f)%nat -> jdec f (jenc x) = Some (canonj x, []).
+Proof. exact dagjson_roundtrip. Qed.
+Print Assumptions C07_dagjson_codec_roundtrip.
+
+Theorem C07_dagjson_text_determines_value : forall x y r1 r2, jsafe x -> jsafe y -> no_digit_head r1 -> no_digit_head r2 ->
+  jenc x ++ r1 = jenc y ++ r2 -> canonj x = canonj y /\ r1 = r2.
+Proof. exact jenc_injective. Qed.
+Print Assumptions C07_dagjson_text_determines_value.
+
+(* outside that domain the full statement is false of the faithful model: these witnesses, replayed on the
+   implementation, are finding F28 (and the reserved key of the DAG-JSON specification) *)
+Theorem C07_dagjson_roundtrip_refuted_on_invalid_utf8 : exists x y, jdec 1 (jenc x) = Some (y, []) /\ y <> canonj x.
+Proof. exact json_not_lossless_on_invalid_utf8. Qed.
+Print Assumptions C07_dagjson_roundtrip_refuted_on_invalid_utf8.
+
+Theorem C07_dagjson_roundtrip_refuted_on_reserved_key : exists x y, jdec 2 (jenc x) = Some (y, []) /\ y <> canonj x.
+Proof. exact json_reserves_the_slash_key. Qed.
+Print Assumptions C07_dagjson_roundtrip_refuted_on_reserved_key.
